@@ -24,7 +24,7 @@ from hypothesis import strategies as st
 from pyarrow import ipc
 
 from lib import c09_ref as ref
-from lib.harness import Check, Outcome
+from lib.harness import Check, HarnessAbort, Outcome
 from vgi_rpc.http import http_connect, http_introspect, make_sync_client, make_wsgi_app
 from vgi_rpc.introspect import introspect
 from vgi_rpc.rpc import CallContext, OutputCollector, ProducerState, RpcConnection, RpcError, RpcServer, Stream
@@ -43,7 +43,10 @@ RULE = (
     "arbitrary text/bytes, x method x request-parameter shape {ok, null, wrong_type, missing, extra}.  Family "
     "client: real RpcConnection / http_connect / introspect clients over canonical (server, client) pairs incl. "
     "undeclared on either side, socket kind in {pipe, unix, tcp}.  Every case is run on the socket path and on "
-    "HTTP.  Non-trivial = the client value differs from the server's declared version string (so some rule other "
+    "HTTP.  Family connection: 2-5 raw requests on ONE pipe connection served by RpcServer.serve(), client values "
+    "drawn from a pool of 1-3 fuzz values (so the same refused value recurs, and refused values follow admitted "
+    "ones), each request judged on its own (non-trivial = a refusable request that is not the first on its "
+    "connection).  Non-trivial = the client value differs from the server's declared version string (so some rule other "
     "than byte equality decides).  Distinct by SHA-1 of the canonical JSON case."
 )
 ASSUMPTIONS = [
@@ -199,12 +202,12 @@ def _tick_stream() -> bytes:
 _TICKS = _tick_stream()
 
 
-def _decode_response(data: bytes) -> dict:
-    """First IPC stream of a response → {"error": {"kind","message","type"}|None, "rows": [...], "ok": bool}."""
-    if not data:
+def _decode_response(data: Any) -> dict:
+    """First IPC stream of a response (bytes or a readable file) → {"error": {...}|None, "rows": [...], "ok": bool}."""
+    if isinstance(data, bytes) and not data:
         return {"ok": False, "why": "empty response", "error": None, "rows": []}
     try:
-        reader = ipc.open_stream(io.BytesIO(data))
+        reader = ipc.open_stream(io.BytesIO(data) if isinstance(data, bytes) else data)
         rows: list[dict] = []
         error = None
         while True:
@@ -224,7 +227,9 @@ def _decode_response(data: bytes) -> dict:
                     "message": meta.get("vgi_rpc.log_message", b"").decode("utf-8", "replace"),
                     "type": extra.get("exception_type") if isinstance(extra, dict) else None,
                 }
-                break
+                if isinstance(data, bytes):
+                    break
+                continue  # a live connection: read this stream to its end so the next response starts clean
             if "vgi_rpc.log_level" in meta:
                 continue
             rows.extend(batch.to_pylist())
@@ -405,6 +410,65 @@ def run_raw(case: dict) -> Outcome:
         "socket": {"calls": sock["calls"], "error_kind": (sock["error"] or {}).get("kind")},
         "http": {"calls": http["calls"], "status": http["status"], "error_kind": (http["error"] or {}).get("kind")},
     }
+    return out
+
+
+# --------------------------------------------------------------------------- several requests on one serve() connection
+
+
+def run_connection(case: dict) -> Outcome:
+    """2-5 raw requests on ONE connection served by RpcServer.serve(): the gate decides every request on its own
+    version value — what an earlier request on the connection carried (the same refused value again, an admitted
+    one before a refused one) changes nothing."""
+    out = Outcome()
+    server_v = case["server"]
+    server, _ = _service(server_v)
+    client_t, server_t = make_pipe_pair()
+    th = threading.Thread(target=server.serve, args=(server_t,), daemon=True, name="verif-c09-serve")
+    th.start()
+    seen: list[bytes | None] = []
+    try:
+        for i, req in enumerate(case["reqs"]):
+            client = _client_bytes(req["client"])
+            cls = ref.classify(server_v, client)
+            tag = _reason_tag(cls)
+            repeat = client in seen
+            seen.append(client)
+            out.label(f"class={tag}", f"method={req['method']}", "verdict=admit" if cls["admit"] else "verdict=refuse",
+                      "same_value_again" if repeat else "new_value", f"pos={i}")
+            if i > 0 and not cls["admit"] and req["method"] != "describe":
+                out.nontrivial = True
+            data = _request_bytes(req["method"], req["params"], client)
+            if req["method"] == "stream":
+                data += _TICKS
+            _CALLS.clear()
+            box: dict[str, Any] = {}
+
+            def exchange(data: bytes = data, box: dict[str, Any] = box) -> None:
+                try:
+                    client_t.writer.write(data)
+                    client_t.writer.flush()
+                    box["obs"] = _decode_response(client_t.reader)
+                except Exception as e:
+                    box["obs"] = {"ok": False, "why": f"{type(e).__name__}: {e}", "error": None, "rows": []}
+
+            w = threading.Thread(target=exchange, daemon=True, name="verif-c09-client")
+            w.start()
+            w.join(60)
+            if w.is_alive():
+                raise HarnessAbort(f"c09 connection: no reply to request #{i} within 60 s (server thread alive={th.is_alive()})")
+            obs = box["obs"]
+            obs["calls"] = list(_CALLS)
+            obs["status"] = None
+            before = len(out.violations)
+            _judge_raw(out, cls, {"server": server_v, **req}, obs, "socket")
+            if len(out.violations) > before:
+                hist = "after " + ("the same value" if repeat else "other values") + f" on the connection (request #{i} of {len(case['reqs'])})"
+                out.violations[before:] = [(f"connection/{k}", f"{what} — {hist}; earlier values {seen[:-1]!r}") for k, what in out.violations[before:]]
+                break
+    finally:
+        client_t.close()
+        th.join(20)
     return out
 
 
@@ -792,6 +856,27 @@ def _encode(text: str, enc: str) -> dict:
 @st.composite
 def _fuzz_case(draw: Any) -> dict:
     server = draw(st.one_of(st.none(), *([_server_version] * 7)))
+    client = _fuzz_client(draw, server)
+    method = draw(st.sampled_from(["unary", "unary", "stream", "stream", "describe"]))
+    params = "ok" if method == "describe" else draw(
+        st.sampled_from(["ok", "ok", "ok", "null", "wrong_type", "missing", "extra"])
+    )
+    return {"server": server, "client": client, "method": method, "params": params}
+
+
+@st.composite
+def _connection_case(draw: Any) -> dict:
+    server = draw(st.one_of(st.none(), *([_server_version] * 9)))
+    pool = [_fuzz_client(draw, server) for _ in range(draw(st.sampled_from([1, 2, 2, 3])))]
+    reqs = []
+    for _ in range(draw(st.sampled_from([2, 2, 3, 4, 5]))):
+        method = draw(st.sampled_from(["unary", "unary", "stream", "describe"]))
+        params = "ok" if method == "describe" else draw(st.sampled_from(["ok", "ok", "ok", "null", "wrong_type", "missing", "extra"]))
+        reqs.append({"client": pool[draw(st.sampled_from(range(len(pool))))], "method": method, "params": params})
+    return {"server": server, "reqs": reqs}
+
+
+def _fuzz_client(draw: Any, server: str | None) -> dict:
     base_server = server if server is not None else "1.0.0"
     mode = draw(st.sampled_from(["derived", "derived", "derived", "derived", "absent", "text", "binary", "canonical"]))
     if mode == "absent":
@@ -813,11 +898,7 @@ def _fuzz_case(draw: Any) -> dict:
             st.sampled_from(["utf8"] * 8 + ["utf16le", "utf16", "utf8sig", "latin1", "tail_ff", "tail_c2", "overlong"])
         )
         client = _encode(s, enc)
-    method = draw(st.sampled_from(["unary", "unary", "stream", "stream", "describe"]))
-    params = "ok" if method == "describe" else draw(
-        st.sampled_from(["ok", "ok", "ok", "null", "wrong_type", "missing", "extra"])
-    )
-    return {"server": server, "client": client, "method": method, "params": params}
+    return client
 
 
 _opt_canonical = st.one_of(st.none(), st.sampled_from(_GRID_VERSIONS), st.sampled_from(_GRID_VERSIONS), _canonical)
@@ -858,3 +939,4 @@ def main(chk: Check) -> None:
             chk.exhaustive = bool(complete)
     chk.explore("fuzz", _fuzz_case(), run_raw, quick=3000, thorough=48000)
     chk.explore("client", _client_case(), run_client, quick=300, thorough=4800)
+    chk.explore("connection", _connection_case(), run_connection, quick=400, thorough=8000)
